@@ -42,6 +42,7 @@ SIG_DEG = 'c11-degenerate-segment-nan'
 SIG_SENS = 'c11-zero-sensitivity-nan'
 SIG_SPEC = 'c11-spectrum-shape-subset'
 SIG_ABS = 'c11-absolute-threshold'
+SIG_CANCEL = 'c11-near-threshold-cancellation'
 
 
 # ------------------------------------------------------------------------------------------ inputs
@@ -72,7 +73,7 @@ def make_case(r, thorough, force=None):
     ctl = f.get('ctl') or str(r.choice(['traceless', 'nontraceless'], p=[.65, .35]))
     noise = f.get('noise') or str(r.choice(['traceless', 'nontraceless'], p=[.65, .35]))
     amp = f.get('amp') or str(r.choice(['generic', 'idle', 'zero-amp', 'degenerate-diag', 'degenerate-rot', 'tiny',
-                                        'repeated', 'scaled'], p=[.36, .12, .12, .06, .08, .08, .08, .10]))
+                                        'small', 'repeated', 'scaled'], p=[.34, .12, .12, .06, .08, .06, .06, .08, .08]))
     drift = f.get('drift') if 'drift' in f else bool(r.random() < 0.4)
     selc = f.get('selc') or str(r.choice(['all', 'subset', 'perm'], p=[.5, .25, .25]))
     seln = f.get('seln') or str(r.choice(['all', 'subset', 'perm'], p=[.5, .3, .2]))
@@ -107,6 +108,8 @@ def make_case(r, thorough, force=None):
         coeffs[1:, g0] = 0.0
     elif amp == 'tiny':
         coeffs[:, g0] = r.choice([1e-9, -3e-10, 2e-12], nc)
+    elif amp == 'small':                                # eigenvalue splittings just above the 1e-7 masks
+        coeffs[:, g0] = r.choice([1e-6, -4e-7, 2e-6], nc)
     elif amp == 'repeated' and G > 1:
         g1 = int(r.integers(1, G))
         coeffs[:, g1] = coeffs[:, g1 - 1]
@@ -155,13 +158,14 @@ def make_case(r, thorough, force=None):
     om = r.uniform(-4, 4, 4)
     om[0] = 0.0
     p.diagonalize()
-    if p.eigvals.shape[1] > 1 and r.random() < 0.5:      # a resonant frequency
+    res_delta = f.get('res_delta', 0.0)
+    if p.eigvals.shape[1] > 1 and (r.random() < 0.5 or res_delta):      # a resonant (or near-resonant) frequency
         g = int(r.integers(0, G))
-        om[1] = -(p.eigvals[g, 0] - p.eigvals[g, -1]) * lam
+        om[1] = (-(p.eigvals[g, 0] - p.eigvals[g, -1]) + res_delta) * lam
     om = np.sort(om) / lam
     S = 1.0 + r.random(len(om)) if spec == '1d' else 1.0 + r.random((n_sel, len(om)))
     tags = dict(d=d, G=G, nc=c_sel, nn=n_sel, ctl=ctl, noise=noise, amp=amp, drift=drift, selc=selc, seln=seln,
-                ncd=use_ncd, sens=sens, spec=spec, basis=bk, lam=lam)
+                ncd=use_ncd, sens=sens, spec=spec, basis=bk, lam=lam, res_delta=res_delta)
     inp = dict(tags=tags, omega=om, c_opers=np.array(c_ops), c_coeffs=coeffs, c_ids=c_ids,
                n_opers=np.array(n_ops), n_coeffs=ncoef, n_ids=n_ids, dt=dt, basis=basis.view(np.ndarray),
                control_identifiers=cid, n_oper_identifiers=nid, ncd_full=ncd_full, spectrum=S)
@@ -210,7 +214,7 @@ def fd4(f, h):
     return (-f(2 * h) + 8 * f(h) - 8 * f(-h) + f(-2 * h)) / (12 * h)
 
 
-def fd_reference(res, want_infid):
+def fd_reference(res, want_infid, rel_step=1e-4):
     """4th-order central differences of the implementation's own filter function (and infidelity)"""
     p, om, n_idx, c_idx, ncd, S = res['p'], res['om'], res['n_idx'], res['c_idx'], res['ncd'], res['S']
     G = len(p.dt)
@@ -219,7 +223,7 @@ def fd_reference(res, want_infid):
     dtm = p.dt.mean()
     for g in range(G):
         for hh, h_full in enumerate(c_idx):
-            step = 1e-4 / (max(p.dt[g], dtm) * max(1.0, np.linalg.norm(p.c_opers[h_full], 2)))
+            step = rel_step / (max(p.dt[g], dtm) * max(1.0, np.linalg.norm(p.c_opers[h_full], 2)))
 
             def F(delta):
                 q = perturbed(p, h_full, g, delta, n_idx, ncd, hh)
@@ -233,6 +237,15 @@ def fd_reference(res, want_infid):
     return FD, IFD
 
 
+def fd_error(D, refs):
+    """entrywise smallest deviation from the finite-difference references.  Two step sizes are used because the
+    package's own filter function is only piecewise smooth: inside a mask window of the first-order integral
+    (|x dt| <= 1e-7, e.g. exactly at a resonance) it is evaluated with the frozen limit value, and a stencil whose
+    points fall into the window measures that frozen function."""
+    e = np.min([np.abs(D - R) for R in refs], axis=0)
+    return float(e.max()), float(max(np.abs(D).max(), max(np.abs(R).max() for R in refs)))
+
+
 def input_classes(res):
     """membership in the input classes of the known findings"""
     p, om, n_idx, c_idx = res['p'], res['om'], res['n_idx'], res['c_idx']
@@ -242,7 +255,7 @@ def input_classes(res):
     tr = lambda A: abs(np.trace(A)) > 1e-12 * max(1.0, np.abs(A).max())
     d2 = d == 2 and (any(tr(p.c_opers[h]) for h in c_idx) or any(tr(p.n_opers[a]) for a in n_idx))
     zs = res['ncd'] is not None and bool((p.n_coeffs[n_idx] == 0).any())
-    absthr = False
+    absthr = cancel = False
     for g in range(G):
         dE = np.subtract.outer(ev[g], ev[g])
         EdE = np.add.outer(om, dE)
@@ -250,7 +263,9 @@ def input_classes(res):
             ax = np.abs(x)
             if ((ax < THR) & (ax * p.dt[g] > 1e-6)).any():
                 absthr = True
-    return dict(degenerate=deg, d2_nontraceless=d2, zero_sens=zs, abs_threshold=absthr)
+            if ((ax >= THR) & (ax * p.dt[g] < 1e-4)).any():
+                cancel = True
+    return dict(degenerate=deg, d2_nontraceless=d2, zero_sens=zs, abs_threshold=absthr, cancellation=cancel)
 
 
 def predicates(inp, res=None, full=True):
@@ -284,22 +299,21 @@ def predicates(inp, res=None, full=True):
     if not finite:
         return bad, cls
     # finite differences of the implementation's own filter function / infidelity
-    FD, IFD = fd_reference(res, want_infid and full)
+    FD, IFD = fd_reference(res, want_infid and full, 1e-4)
+    FDb, IFDb = fd_reference(res, want_infid and full, 2e-3)
     Fmax = np.abs(np.einsum('aao->ao', p.get_filter_function(om)).real[res['n_idx']]).max()
     floor = 1e-9 * Fmax * p.dt.max() * max(1.0, max(np.linalg.norm(p.c_opers[h], 2) for h in res['c_idx']))
-    err = np.abs(D - FD).max()
-    scale = max(np.abs(D).max(), np.abs(FD).max())
+    sig = (SIG_D2 if cls['d2_nontraceless'] else SIG_ABS if cls['abs_threshold'] else
+           SIG_CANCEL if cls['cancellation'] else 'c11-fd-mismatch')
+    err, scale = fd_error(D, (FD, FDb))
     if err > FD_TOL * scale + floor:
-        sig = SIG_D2 if cls['d2_nontraceless'] else SIG_ABS if cls['abs_threshold'] else 'c11-fd-mismatch'
         bad.append(('ff-derivative', sig, 'filter function derivative differs from finite differences: max abs err '
                     '%.3g, largest entry %.3g (rel %.3g)' % (err, scale, err / max(scale, 1e-300))))
     if IFD is not None:
         S2 = np.broadcast_to(res['S'], (len(res['n_idx']), len(om))) if res['S'].ndim < 3 else res['S']
         ifloor = floor * np.abs(S2).max() * (om.max() - om.min()) / (2 * np.pi * p.d)
-        ierr = np.abs(res['ID'] - IFD).max()
-        iscale = max(np.abs(res['ID']).max(), np.abs(IFD).max())
+        ierr, iscale = fd_error(res['ID'], (IFD, IFDb))
         if ierr > FD_TOL * iscale + ifloor:
-            sig = SIG_D2 if cls['d2_nontraceless'] else SIG_ABS if cls['abs_threshold'] else 'c11-fd-mismatch'
             bad.append(('infidelity-derivative', sig, 'infidelity derivative differs from finite differences of '
                         'infidelity(): max abs err %.3g, largest entry %.3g' % (ierr, iscale)))
     # identifier selection = slice of the full derivative
@@ -359,27 +373,50 @@ def coq_full_case(name, inp, res, big):
             f"{natlist(n_idx)} {natlist(c_idx)} {use} ncd spec in\n  {expr}.\n")
 
 
-def coq_di_case(name, E, ev, dt, big):
-    O = emit.ops(big)
+def di_run(E, ev, dt):
     d = len(ev)
     out = np.empty((len(E), d, d, d, d), dtype=complex)
     with np.errstate(all='ignore'):
         out = gradient._derivative_integral(E, ev, dt, out)
+    return out
+
+
+def di_xmin(E, ev, dt):
+    """smallest unmasked |x| among dE, EdE, EdEdE (inf if none is below 1e-4/dt): the cancellation class"""
+    dE = np.subtract.outer(ev, ev)
+    EdE = np.add.outer(E, dE)
+    EdEdE = np.add.outer(EdE, dE[np.abs(dE) >= THR])
+    xs = np.abs(np.concatenate([dE.ravel(), EdE.ravel(), EdEdE.ravel()]))
+    xs = xs[(xs >= THR) & (xs * dt < 1e-4)]
+    return float(xs.min()) if xs.size else np.inf
+
+
+def coq_di_case(name, E, ev, dt, big, loose=False):
+    O = emit.ops(big)
+    d = len(ev)
+    out = di_run(E, ev, dt)
     if not np.isfinite(out).all():
         return None
+    tol = REL_TOL * max(np.abs(out).max(), 1e-300)
+    if loose:       # rounding-error bound of the cancelling formulas: a few ulp of 1 divided by x^2
+        tol += 2e-15 / di_xmin(E, ev, dt) ** 2
     return (f"Definition {name} : N*N*N :=\n  let O := {O} in\n"
-            f"  tallyC O {emit.tol_lit(REL_TOL * max(np.abs(out).max(), 1e-300), big)} {carr_lit(out.reshape(-1))}%Z\n"
+            f"  tallyC O {emit.tol_lit(tol, big)} {carr_lit(out.reshape(-1))}%Z\n"
             f"    (model_di O {d} {TH3} (rvec O {rvec_lit(E)}%Z) (rvec O {rvec_lit(ev)}%Z) (dy O {dylit(dt)}%Z)).\n")
 
 
 def di_inputs(r, n):
-    """arguments of _derivative_integral covering all branch combinations, near-threshold values included"""
-    deltas = [0.0, 1e-12, -1e-9, 0.9e-7, -0.9e-7, 1.1e-7, -1.1e-7, 1e-5, 1e-3]
+    """arguments of _derivative_integral covering all branch combinations; offsets from the degenerate parameters
+    are exactly zero, inside the masks, or far outside (accurate evaluation), or -- tagged 'near' -- just outside
+    the masks where the formulas cancel"""
+    safe = [0.0, 1e-12, -1e-9, 0.9e-7, -0.9e-7, 1e-2, -3e-3]
+    near = [1.1e-7, -1.1e-7, 1e-6, -1e-5]
     out = []
     for i in range(n):
         d = int(r.choice([2, 3]))
         ev = np.sort(r.standard_normal(d))
         kind = str(r.choice(['generic', 'degenerate', 'near-degenerate', 'idle']))
+        deltas = near if i % 4 == 3 else safe
         if kind == 'degenerate':
             ev[1] = ev[0]
         elif kind == 'near-degenerate':
@@ -391,7 +428,8 @@ def di_inputs(r, n):
         m, k = int(r.integers(0, d)), int(r.integers(0, d))
         E.append(-(ev[m] - ev[k]) + float(r.choice(deltas)))                      # x = EdE near 0
         E.append(-(ev[m] - ev[k]) - (ev[0] - ev[d - 1]) + float(r.choice(deltas)))   # y = EdEdE near 0
-        out.append((np.array(E), ev, dt, kind))
+        E = np.array(E)
+        out.append((E, ev, dt, kind + ('/near' if np.isfinite(di_xmin(E, ev, dt)) else '')))
     return out
 
 
@@ -448,7 +486,9 @@ FORCED = [dict(d=2, G=3, ctl='nontraceless', noise='traceless', amp='generic', n
           dict(d=3, G=2, amp='scaled', ncd=False),
           dict(d=4, G=4, amp='zero-amp'),
           dict(d=2, G=3, ctl='traceless', noise='traceless', amp='zero-amp', drift=True, selc='perm', nc=2),
-          dict(d=3, G=3, amp='tiny', drift=True)]
+          dict(d=3, G=3, amp='tiny', drift=True),
+          dict(d=3, G=3, amp='small', ctl='traceless', noise='traceless', ncd=False),
+          dict(d=3, G=2, amp='generic', ctl='traceless', noise='traceless', ncd=False, res_delta=3e-7)]
 
 
 def run(ctx):
@@ -474,69 +514,93 @@ def run(ctx):
                                 classes=cls))
         cases.append((inp, res))
     # ---- correspondence: model vs implementation inside Coq
-    small = [(i, c) for i, c in enumerate(cases) if small_enough(*c)]
-    small = small[:(40 if ctx.thorough else 14)]
-    defs = [('f%d' % i, coq_full_case('f%d' % i, c[0], c[1], False)) for i, c in small]
-    dis = di_inputs(ctx.rng(12), 40 if ctx.thorough else 16)
-    ddefs = []
-    for j, (E, ev, dt, kind) in enumerate(dis):
-        txt = coq_di_case('g%d' % j, E, ev, dt, False)
-        if txt is None:
+    hard_amp = ('degenerate-rot', 'tiny', 'small')        # need 160-bit intervals (1 - cos of a tiny angle)
+    small, nhard = {}, 0
+    for i, c in enumerate(cases):
+        if not small_enough(*c) or len(small) >= (40 if ctx.thorough else 12):
+            continue
+        if c[0]['tags']['amp'] in hard_amp:
+            nhard += 1
+            if nhard > (8 if ctx.thorough else 2):
+                continue
+        small['f%d' % i] = c
+    res1 = eval_retry(ctx, list(small), lambda nm, big: coq_full_case(nm, small[nm][0], small[nm][1], big), 6)
+    dis = {}
+    for j, (E, ev, dt, kind) in enumerate(di_inputs(ctx.rng(12), 48 if ctx.thorough else 16)):
+        if not np.isfinite(di_run(E, ev, dt)).all():
             failures.append(dict(kind='prop', observable='finite', signature='c11-di-nonfinite',
                                  detail='_derivative_integral returns NaN/inf', input=dict(E=E, eigvals=ev, dt=dt)))
         else:
-            ddefs.append(('g%d' % j, txt))
+            dis['g%d' % j] = (E, ev, dt, kind)
+    res2 = eval_retry(ctx, list(dis), lambda nm, big: coq_di_case(nm, *dis[nm][:3], big), 16, 4)
+    near = [nm for nm in dis if dis[nm][3].endswith('/near')]
+    res2l = dict(zip(near, eval_retry(ctx, near, lambda nm, big: coq_di_case(nm, *dis[nm][:3], big, loose=True), 16, 4)))
     bdefs = bookkeeping_defs(cases[:12])
-    res1 = ctx.eval_tallies(HDR, defs, per_file=2)
-    res2 = ctx.eval_tallies(HDR, ddefs, per_file=8)
     res3 = ctx.eval_tallies(HDR, bdefs, per_file=64)
-    # retry undecided / failed evaluations with 160-bit intervals
-    redo = [k for k, x in enumerate(res1) if x is None or x[1] > 0]
-    if redo:
-        d2 = [('f%d' % small[k][0], coq_full_case('f%d' % small[k][0], small[k][1][0], small[k][1][1], True)) for k in redo]
-        for k, x in zip(redo, ctx.eval_tallies(HDR, d2, per_file=1, timeout=2400)):
-            if x is not None:
-                res1[k] = x
-    redo = [k for k, x in enumerate(res2) if x is None or x[1] > 0]
-    if redo:
-        d2 = []
-        for k in redo:
-            j = int(ddefs[k][0][1:])
-            d2.append((ddefs[k][0], coq_di_case(ddefs[k][0], dis[j][0], dis[j][1], dis[j][2], True)))
-        for k, x in zip(redo, ctx.eval_tallies(HDR, d2, per_file=2)):
-            if x is not None:
-                res2[k] = x
     agree = undec = 0
-    for (k, x), what in [(kx, 'full') for kx in enumerate(res1)] + [(kx, 'di') for kx in enumerate(res2)] + \
-                        [(kx, 'book') for kx in enumerate(res3)]:
-        if what == 'full':
-            inp = inp_record(small[k][1][0])
-        elif what == 'di':
-            j = int(ddefs[k][0][1:])
-            inp = dict(E=dis[j][0], eigvals=dis[j][1], dt=dis[j][2], kind=dis[j][3])
-        else:
-            inp = dict(definition=bdefs[k][1])
+
+    def corr_fail(what, sig, x, inp, tolnote=''):
+        failures.append(dict(kind='corr', observable=what, signature=sig, input=inp,
+                             detail='%d entries outside the model enclosure (+-%g rel%s), %d undecided'
+                                    % (x[2], REL_TOL, tolnote, x[1])))
+    for nm, x in zip(small, res1):
         if x is None:
-            failures.append(dict(kind='corr', observable='model-evaluation (%s)' % what, signature='c11-model-eval',
+            failures.append(dict(kind='corr', observable='model-evaluation (full)', signature='c11-model-eval',
+                                 detail='Coq evaluation of the model failed', input=inp_record(small[nm][0])))
+            continue
+        agree, undec = agree + x[0], undec + x[1]
+        if x[1] > 0 or x[2] > 0:
+            # just outside the masks the implementation (not the model) is inaccurate: known finding
+            canc = input_classes(small[nm][1])['cancellation'] and x[1] == 0
+            corr_fail('ctrlmat_deriv/filter_function_derivative/infidelity_derivative vs model',
+                      SIG_CANCEL if canc else 'c11-corr-full', x, inp_record(small[nm][0]))
+    for nm, x in zip(dis, res2):
+        E, ev, dt, kind = dis[nm]
+        inp = dict(E=E, eigvals=ev, dt=dt, kind=kind)
+        xl = res2l.get(nm, x)
+        if x is None or xl is None:
+            failures.append(dict(kind='corr', observable='model-evaluation (di)', signature='c11-model-eval',
                                  detail='Coq evaluation of the model failed', input=inp))
             continue
-        agree += x[0]
-        undec += x[1]
-        if x[2] > 0 or x[1] > 0:
-            failures.append(dict(kind='corr', observable={'full': 'ctrlmat_deriv/filter_function_derivative/infidelity_derivative vs model',
-                                                          'di': '_derivative_integral vs model',
-                                                          'book': 'identifier resolution / spectrum shape vs model'}[what],
-                                 signature='c11-corr-' + what,
-                                 detail='%d entries outside the model enclosure (+-%g rel), %d undecided' % (x[2], REL_TOL, x[1]),
-                                 input=inp))
-    return dict(evaluations=len(cases) + len(ddefs), distinct_nontrivial=len(nontrivial),
+        agree, undec = agree + x[0], undec + x[1]
+        if nm in res2l:
+            if xl[1] > 0 or xl[2] > 0:
+                corr_fail('_derivative_integral vs model', 'c11-corr-di', xl, inp, ' + rounding bound 2e-15/x^2')
+            elif x[1] > 0 or x[2] > 0:
+                corr_fail('_derivative_integral accuracy just outside the masks (smallest unmasked |x| = %.3g)'
+                          % di_xmin(E, ev, dt), SIG_CANCEL, x, inp)
+        elif x[1] > 0 or x[2] > 0:
+            corr_fail('_derivative_integral vs model', 'c11-corr-di', x, inp)
+    for (nm, txt), x in zip(bdefs, res3):
+        if x is None:
+            failures.append(dict(kind='corr', observable='model-evaluation (bookkeeping)', signature='c11-model-eval',
+                                 detail='Coq evaluation of the model failed', input=dict(definition=txt)))
+            continue
+        agree, undec = agree + x[0], undec + x[1]
+        if x[1] > 0 or x[2] > 0:
+            corr_fail('identifier resolution / spectrum shape vs model', 'c11-corr-book', x, dict(definition=txt))
+    return dict(evaluations=len(cases) + len(dis), distinct_nontrivial=len(nontrivial),
                 rule='random pulses with class tags d/ctl/noise/amp/drift/selc/seln/ncd/sens/spec (amp: generic, idle, '
-                     'exactly-zero amplitudes, degenerate (exact/rotated), tiny, repeated, time-scaled); a case is '
+                     'exactly-zero amplitudes, degenerate (exact/rotated), tiny, small, repeated, time-scaled); a case is '
                      'non-trivial if its filter function derivative is not identically zero; distinct = distinct '
                      'class-tag tuples among the non-trivial cases; plus direct _derivative_integral cases',
                 samples=samples, failures=failures, classes=classes,
-                corr=dict(entries_agree=agree, entries_undecided=undec, full_cases=len(defs), di_cases=len(ddefs),
+                corr=dict(entries_agree=agree, entries_undecided=undec, full_cases=len(small), di_cases=len(dis),
                           bookkeeping=len(bdefs)))
+
+
+def eval_retry(ctx, names, mk, per_file, per_file_big=1):
+    """evaluate definitions on hardware-float intervals, retry undecided / failed ones on 160-bit intervals"""
+    if not names:
+        return []
+    res = ctx.eval_tallies(HDR, [(nm, mk(nm, False)) for nm in names], per_file=per_file)
+    redo = [k for k, x in enumerate(res) if x is None or x[1] > 0]
+    if redo:
+        d2 = [(names[k], mk(names[k], True)) for k in redo]
+        for k, x in zip(redo, ctx.eval_tallies(HDR, d2, per_file=per_file_big, timeout=2400)):
+            if x is not None:
+                res[k] = x
+    return res
 
 
 def replay(ctx, rep):
@@ -549,6 +613,9 @@ def replay(ctx, rep):
         if txt is None:
             return False, 'replay reproduces: _derivative_integral returns NaN/inf'
         x = ctx.eval_tallies(HDR, [('g0', txt)], per_file=1)[0]
+        if x is not None and x[2] > 0 and np.isfinite(di_xmin(E, ev, dt)):
+            return False, ('replay reproduces: _derivative_integral is inaccurate just outside its masks (smallest '
+                           'unmasked |x| = %.3g): %s' % (di_xmin(E, ev, dt), x))
         if x is None or x[1] > 0 or x[2] > 0:
             return False, 'replay reproduces: _derivative_integral differs from the model: %s' % (x,)
         return True, 'replay: _derivative_integral agrees with the model on this input'
